@@ -20,6 +20,10 @@ EXPLANATION = (
     "LocalAnomalyScore additionally bounds the inner size and the pooled surrounding size by min_size. Values of accepted cuts are "
     "decided under C01/C06."
 )
+# obligations added during the build phase (seeding rounds, twins, mutation analysis)
+ADDED_IN_BUILD = ' Also: three scenarios per scorer (ndarray of unknown shape and dtype; any array-like container; (k, width) integer array); no cast of the cuts to an integer dtype before their own dtype was tested (cast-before-dtype-check); signed-differences - the spacing test is decided on differences of a signed type (a signed cast before np.diff / before the test, or a signed-integer dtype test): unsigned cuts cannot wrap around (finding F-24); rank-of-argument - on every path to the kernel the facts about the rank of the argument as given exclude more than two dimensions.'
+EXPLANATION = EXPLANATION + ADDED_IN_BUILD
+
 ASSUMPTIONS = [
     "Python's ast module and evaluation-order/argument-binding semantics as implemented in skverif/symex.py",
     "library model table skverif/models.py (np.issubdtype, np.diff, np.any/np.all, ndarray.ndim/shape/dtype)",
